@@ -9,7 +9,10 @@ from types import MethodType
 import numpy as np
 
 from .helper import create_build_finer_grid_fun
-from ..markovchain.markovchain import MarkovChainProcess
+from ..markovchain.markovchain import (
+    MarkovChainProcess,
+    running_values_over_intervals,
+)
 from ...distribution.sampling import SamplingMethod
 from ...distribution.univariate.uniform import Uniform
 from ...grid.spatial import CTMCGrid
@@ -310,7 +313,7 @@ class CouplingSimulationWithJumpTimes(CouplingSimulation):
         fine_states_all_values = fine_mc.values
         jump_times = fine_mc.times
 
-        coarse_states_all_values = np.empty_like(fine_states_all_values)
+        coarse_states_all_values = [np.empty(shape=0)] * len(fine_states_all_values)
 
         for k, (slice_fine_states, slice_fine_values) in enumerate(
             zip(fine_states_increments, fine_states_all_values)
@@ -321,8 +324,8 @@ class CouplingSimulationWithJumpTimes(CouplingSimulation):
                 )
                 coarse_states_all_values[k] = slice_coarse_values
 
-        fine_values = np.concatenate(fine_states_all_values).ravel().astype(float)
-        coarse_values = np.concatenate(coarse_states_all_values).ravel().astype(float)
+        fine_values = running_values_over_intervals(fine_states_all_values)
+        coarse_values = running_values_over_intervals(coarse_states_all_values)
 
         return jump_times, fine_values, coarse_values
 
